@@ -521,10 +521,33 @@ def _defloat(p):
     return p.xreplace(rep) if rep else p
 
 
+class _DerivAtSpecialPoint:
+    """F133: `diff(cf(t), t, k)` of a Piecewise transform, evaluated at the special point of the
+    Piecewise by the limit of the generic branch instead of the derivative of the constant branch"""
+
+    def __init__(self, expr, t, k):
+        import sympy
+        self.t = t
+        self.d = sympy.diff(expr, t, k)
+
+    def xreplace(self, rule):
+        import sympy
+        w = sympy.sympify(rule.get(self.t))
+        if isinstance(self.d, sympy.Piecewise) and w == 0:
+            generic = self.d.args[0][0]
+            return sympy.limit(generic, self.t, 0)
+        return self.d.xreplace(rule)
+
+
 def _apply_repairs(names):
     from program.assignment.functional_assignment import FunctionalAssignment as FA
     from program.distribution.distribution import Distribution
     undo = []
+    if "freq0" in names:
+        import program.assignment.functional_assignment as fam
+        orig_diff = fam.diff
+        fam.diff = lambda expr, t, k: _DerivAtSpecialPoint(expr, t, k)
+        undo.append(lambda: setattr(fam, "diff", orig_diff))
     if "guard" in names:
         orig = FA.__dict__["get_func_moment"]
         FA.get_func_moment = classmethod(_repaired_get_func_moment)
@@ -573,6 +596,16 @@ def func_moment_repaired(family, params, powers, repairs=("guard",)):
             return {"raised": False}
         except Exception as e:  # noqa
             return {"raised": True, "error": _exc(e)}
+    finally:
+        for u in reversed(undo):
+            u()
+
+
+def polar_moment_repaired(family, params, powers, mode, repairs=("freq0",)):
+    """polar_moment with a repair (value in one mode)"""
+    undo = _apply_repairs(list(repairs))
+    try:
+        return polar_moment(family, params, powers, modes=(mode,))[mode]
     finally:
         for u in reversed(undo):
             u()
